@@ -13,7 +13,7 @@ Found(r, n) == \E k \in 1..Len(r.inside) :
                   /\ (n.kind = "file" => r.inside[k].data = n.data)
                   /\ (n.kind = "link" => r.inside[k].target = n.target)
 \* duplicate paths are hostile input: only containment is claimed for them
-Distinct(pkg) == \A i, j \in 1..Len(pkg) : i # j => pkg[i].comps # pkg[j].comps
+Distinct(pkg) == \A i, j \in 1..Len(pkg) : i # j => NoDots(pkg[i].comps) # NoDots(pkg[j].comps)
 ModelOk(r) ==
     /\ r.outcome \in {"ok", "err"}
     /\ r.outside_diff = <<>>                               \* Contained
